@@ -6,17 +6,20 @@ RULE_FMT = ("real ResponseOutputFormat (deserialised from a configuration docume
             "preserved) on generated responses: CompassApp-shaped objects with/without error and csv_error, arbitrary "
             "nested JSON, null and non-object responses; strings with quotes, commas, line breaks, control bytes, "
             "non-ASCII; u64/i64 extremes, arbitrary finite f64; mappings with paths (existing, missing, through "
-            "non-objects, empty), Sum (empty, nested, mixed, overflowing), Optional; header names with commas, quotes, "
-            "line breaks. I = initial/final file contents, row, returned response (canonical JSON text) + verdicts of "
+            "non-objects, empty; keys containing '/', '~', '~0', '~1', numeric keys under objects and under arrays), Sum (empty, "
+            "nested, mixed, overflowing), Optional; header names with commas, quotes, line breaks. I = initial/final file contents, row, returned response (canonical JSON text) + verdicts of "
             "real readers (exact JSON reader: record parses back; csv crate: header names = configured columns, field i = "
-            "value of the mapping under header name i; response keeps its content); M = the same from the Coq model bit for bit (ryu / Display float text is a "
+            "cell SPECIFIED for the mapping under header name i - a dot-separated path of literal object keys, no pointer syntax, no array "
+            "index, Sum/Optional as documented (spec_value in the harness, SK.spec_value in Coq); error entry = exactly the failing columns; "
+            "response keeps its content); M = the same from the Coq model bit for bit (ryu / Display float text is a "
             "per-case oracle table); S = the implementation's output echoed with all verdicts required T, the JSON-lines "
-            "row additionally read back by the verified reader of Model/SinkJson.v. non-trivial = CSV row with >=2 columns where at least one mapping fails and one "
+            "row additionally read back by the verified reader of Model/SinkJson.v, cols / errs decided in Coq by SK.spec_value on the real row. non-trivial = CSV row with >=2 columns where at least one mapping fails and one "
             "field is non-empty, or a JSON record with an escaped string or a float; distinct by (format, response)")
 RULE_SINK = ("a real ResponseSink::File built by ResponseOutputPolicy::build from a deserialised policy document "
              "(json lines, csv sorted/unsorted with a Sum and Optional columns), written by 1..16 OS threads (std "
              "threads released by a barrier, or a rayon pool with more chunks than threads as CompassApp does) with "
-             "1..500 responses, small / mixed / ~100 kB records, flush rates None and 1..n+1, 1..3 successive "
+             "1..500 responses, small / mixed / ~100 kB records, flush rates None, 1..n+1, 0, negative, 2^40, i64::MAX (a rate that is not "
+             "positive may be refused when the sink is built - then nothing is written - or else every record must be there), 1..3 successive "
              "builds appending to the same file, pre-existing files, identical responses. The H1 trace "
              "(take_sink_trace) with the per-thread queues is fed to the model's acceptor; M = digest of the file "
              "the model replays from the trace + order of the records, I = digest of the real file + order found by "
@@ -80,7 +83,7 @@ def run(chk):
     if not chk.replay:
         corpus(chk, binp)
     for stream, n, rule in (("fmt", 6000 if thorough else 600, RULE_FMT),
-                            ("sink", 900 if thorough else 130, RULE_SINK),
+                            ("sink", 900 if thorough else 170, RULE_SINK),
                             ("app", 800 if thorough else 200, RULE_APP)):
         if only and only != stream:
             continue
